@@ -348,6 +348,16 @@ def gen_hist(n, rnd):
             world.cfg = world.d.json_config = jsonrpclib.config.DEFAULT if sv == "2" else world.cfg
             world.cfg0 = cfg_snapshot(world.cfg)
         for _step in range(rnd.randint(2, 5)):
+            if rnd.random() < 0.25:
+                # a request whose id is a bean (the reply cannot be converted: the fall-back error path), valid or not,
+                # in either version - after whatever was served before
+                ent = {"method": rnd.choice(["ok_1", "ok_2", 5, "nope_1"]), "id": {"__jsonclass__": ["decimal.Decimal", [rnd.choice(["1.5", "0"])]]}}
+                if rnd.random() < 0.6:
+                    ent["jsonrpc"] = "2.0"
+                r = run_body(dumps(ent, rnd), sv, dk, rnd, "jsonclass", world=world, jc="ok")
+                if r:
+                    recs.append(r)
+                continue
             m = rnd.choice([0, 0, 0, 1, 2, 3])
             ents = [make_entry(random_entry_class(rnd), j + 1, rnd) for j in range(max(1, m))]
             text = dumps(ents[0] if m == 0 else ents, rnd)
